@@ -406,6 +406,19 @@ def corpus():
       edit(ti, 'TBRiROAS.estimate_pointwise_and_cumulative_effect', lambda n: isinstance(n, ast.Call) and norm(n) == 'delta_metric.ppf(tail_probability)' and isinstance(n._parent, ast.Dict), 'delta_metric.ppf(1 - tail_probability)'))
   add('C18', 'container guard on the upper bound removed', 'bad', 'R4/container',
       delete_stmt(cc, 'EstimatedTimeSeriesWithConfidenceInterval.__init__', lambda n: isinstance(n, ast.If) and "self['upper'] <" in norm(n.test)))
+  add('C18', 'cumulative bounds taken from the central interval at coverage = level', 'bad', 'R3/quantile-order',
+      edit(ti, 'TBRiROAS.estimate_pointwise_and_cumulative_effect', lambda n: isinstance(n, ast.Call) and norm(n) == 'delta_metric.ppf(tail_probability)' and isinstance(n._parent, ast.Dict),
+           'delta_metric.interval(1 - tails * tail_probability)[0]'))
+  add('C18', 'benign: central interval with coverage 1 - 2 * tail probability', 'benign', None,
+      edit(ti, 'TBRiROAS.estimate_pointwise_and_cumulative_effect', lambda n: isinstance(n, ast.Call) and norm(n) == 'delta_metric.ppf(tail_probability)' and isinstance(n._parent, ast.Dict),
+           'delta_metric.interval(1 - 2 * tail_probability)[0]'))
+  add('C16', 'entries cast to int before the 0/1 test', 'bad', 'R2/validation',
+      edit(ge, 'GeoEligibility.__init__', lambda n: isinstance(n, ast.Assign) and norm(n.targets[0]) == 'df.geo' and 'astype' in norm(n.value),
+           lambda s_, n: s_ + "\n    df[['control', 'treatment', 'exclude']] = df[['control', 'treatment', 'exclude']].astype('int')"))
+  add('C19', 'labels in first-appearance order zipped with the sorted pivot rows', 'bad', 'R6/positional-pairing',
+      multi(edit(td, 'TBRDiagnostics._detect_noisy_geos', lambda n: isinstance(n, ast.Assign) and norm(n) == 'geos = data.index', 'geos = data.index\n    first_seen_ = self._data[self._df_names.geo].unique()\n    rows_ = data.to_numpy()\n    pairs_ = [(g_, r_) for g_, r_ in zip(first_seen_, rows_)]')))
+  add('C19', 'benign: index labels zipped with the rows of the same table', 'benign', None,
+      multi(edit(td, 'TBRDiagnostics._detect_noisy_geos', lambda n: isinstance(n, ast.Assign) and norm(n) == 'geos = data.index', 'geos = data.index\n    rows_ = data.to_numpy()\n    pairs_ = [(g_, r_) for g_, r_ in zip(data.index, rows_)]')))
   # ---- additional benign twins (behaviour-preserving refactors that must stay silent)
   def rename_local(module, qual, oldn, newn):
     def apply(root):
